@@ -23,7 +23,8 @@ EXPLANATION = (
     "with isinstance (subclasses of dict are contexts); (f) no closure created in a loop of the variables module captures a "
     "per-iteration name by reference, and the conditions of _update_context read the keys type/compose/variable only; (g) the list of "
     "composed types is extended with a list (the applied variable's compose list) and appended a single type name; (h) no function or lambda nested in the variables module changes an object it captured from "
-    "the call that created it (getters are functions of the value, without memo).  Does not decide the nested-dictionary values (that compose lists types in order for all chains).")
+    "the call that created it (getters are functions of the value, without memo); (i) the **kwargs of the three constructors are handed to var_context.update "
+    "whole -- no comprehension, loop or test selects among them by value.  Does not decide the nested-dictionary values (that compose lists types in order for all chains).")
 RULES = {
     "C14-a": "FOLD: Compose getter/context and Combine getter iterate self._vars forwards, threading the value",
     "C14-b": "FRESH: every var_context given to _update_context / stored in combine is a per-call deepcopy; __call__ does not write self",
@@ -36,6 +37,8 @@ RULES = {
              "variable); whether _update_context composes is decided by the presence of types only, never by names",
     "C14-h": "PURE GETTER: no function nested in the variables module changes what it captured from the call that created it "
              "(a getter with a memo returns the result of an earlier value for an object that was changed in place)",
+    "C14-i": "ATTRIBUTES VERBATIM: the keyword attributes of Variable/Combine/Compose reach var_context whole (update(kwargs) / "
+             "update(**kwargs)), never through a filter on their values: offset=0, log=False, unit='' are attributes",
     "C14-g": "KIND: the list of composed types is extended with a list (the applied variable's own compose list) and appended a single "
              "type; a type name (a string) is never handed to extend(), which would add its characters",
 }
@@ -697,7 +700,52 @@ def check_pure_getters(ctx):
     ctx.ok("C14-h", (VAR, "<module>"), "%d nested functions/lambdas of %d functions change nothing they captured" % (n_inner, n))
 
 
+def check_attributes_verbatim(ctx):
+    """Variable("x", f, offset=0, log=False, unit="") has three attributes.  `update((k, v) for k, v in kwargs.items() if v)` drops all
+    of them: they vanish from context.variable, from the copy kept under the type after composition, and var.offset raises."""
+    from ..kinds import truth_tests
+    n = 0
+    for qual in ("Variable.__init__", "Combine.__init__", "Compose.__init__"):
+        fn = ctx.tree.func(VAR, qual)
+        kw = fn.args.kwarg.arg if fn.args.kwarg is not None else None
+        if not ctx.require(kw is not None, "C14-i", fn, "%s takes no **kwargs" % qual):
+            continue
+        whole = []
+        for c in A.walk_local(fn):
+            if isinstance(c, ast.Call) and isinstance(c.func, ast.Attribute) and c.func.attr == "update":
+                if any(isinstance(a, ast.Name) and a.id == kw for a in c.args) or any(
+                        k.arg is None and isinstance(k.value, ast.Name) and k.value.id == kw for k in c.keywords):
+                    whole.append(c)
+        n += 1
+        if whole:
+            ctx.ok("C14-i", whole[0], "%s: var_context.update(%s) with all attributes" % (qual, kw))
+        else:
+            ctx.unknown("C14-i", fn, "%s: the keyword attributes do not reach var_context through update(%s) / update(**%s); how they do "
+                        "is not recognised" % (qual, kw, kw))
+        # nothing selects among the attributes by value
+        for x in A.walk_local(fn):
+            gens = []
+            if isinstance(x, (ast.ListComp, ast.SetComp, ast.DictComp, ast.GeneratorExp)):
+                gens = [(g, g.ifs) for g in x.generators if kw in A.names_loaded(g.iter)]
+            elif isinstance(x, ast.For) and kw in A.names_loaded(x.iter):
+                tests = [t.test for t in A.walk_body(x.body) if isinstance(t, (ast.If, ast.IfExp))]
+                gens = [(x, tests)] if tests else []
+            for g, tests in gens:
+                tv = A.target_names(g.target)
+                valvars = set(tv[1:]) if len(tv) > 1 else set()
+                for t in tests:
+                    reads_val = A.names_loaded(t) & valvars or any(
+                        isinstance(s_, ast.Subscript) and A.root_name(s_) == kw for s_ in ast.walk(t))
+                    if reads_val:
+                        ctx.violation("C14-i", t, "%s selects among its keyword attributes by their value (`%s`): an attribute whose value "
+                                      "is 0, False, '', () or None is dropped -- it is missing from context.variable, from the copy kept "
+                                      "under the variable's type after composition, and reading it from the variable raises "
+                                      "LenaAttributeError" % (qual, A.short(t, 40)), construct="kwargs-filtered:%s" % qual)
+    ctx.instances_floor("C14-i", n, 3, "constructors with keyword attributes")
+
+
 def check(ctx):
+    check_attributes_verbatim(ctx)
     check_pure_getters(ctx)
     ctx.instances_floor("C14-e/isinstance", K.check_isinstance_dispatch(ctx, "C14-e", ["lena.flow.functions", "lena.variables.variable", "lena.context.functions", "lena.context.context"], "lena.context.Context, OrderedDict as a context; a subclass of Variable"), 10, "isinstance tests in the value and variable helpers")
     check_compose_kinds(ctx)
@@ -711,6 +759,8 @@ def check(ctx):
 
 
 VARIANTS = [
+    M("variable-drops-falsy-attributes", "lena/variables/variable.py", "        self.var_context.update(**kwargs)\n", "        self.var_context.update(\n            (key, val) for key, val in kwargs.items() if val\n        )\n", ["C14-i"]),
+    M("combine-drops-none-attributes", "lena/variables/variable.py", "        var_context.update(kwargs)\n        assert \"dim\" not in kwargs", "        for key in kwargs:\n            if kwargs[key] is not None:\n                var_context[key] = kwargs[key]\n        assert \"dim\" not in kwargs", ["C14-i"]),
     M("combine-getter-memo", "lena/variables/variable.py", "        getter = lambda val: tuple(var.getter(val) for var in self._vars)\n",
       "        last = []\n        def getter(val):\n            if last and last[0] is val:\n                return last[1]\n            res = tuple(var.getter(val) for var in self._vars)\n            last[:] = (val, res)\n            return res\n", ["C14-h"]),
     M("combine-getter-memo-dict", "lena/variables/variable.py", "        getter = lambda val: tuple(var.getter(val) for var in self._vars)\n",
